@@ -58,10 +58,7 @@ pub broadcast proof fn lemma_lin_ids_mem_b(t: Seq<v1::linear::Term>, n: int, k: 
     requires 0 <= n <= t.len()
     ensures #[trigger] lin_ids(t, n).contains(k) <==> exists|i: int| 0 <= i < n && (#[trigger] t[i]).id == k
 { lemma_lin_ids_mem(t, n, k); }
-pub broadcast proof fn lemma_dv_ids_mem_b(t: Seq<v1::DecisionVariable>, n: int, k: u64)
-    requires 0 <= n <= t.len()
-    ensures #[trigger] dv_ids(t, n).contains(k) <==> exists|i: int| 0 <= i < n && (#[trigger] t[i]).id == k
-{ lemma_dv_ids_mem(t, n, k); }
+// lemma_dv_ids_mem_b (broadcast form of lemma_dv_ids_mem) lives next to dv_ids in c12_spec.rs
 // ---- parametric instances: decision-variable and parameter ids jointly unique, covering objective + active constraints ----
 pub open spec fn p_ids(ps: Seq<v1::Parameter>, n: int) -> Set<u64> decreases n { if n <= 0 { Set::empty() } else { p_ids(ps, n - 1).insert(ps[n - 1].id) } }
 pub proof fn lemma_p_ids_mem(t: Seq<v1::Parameter>, n: int, k: u64)
